@@ -97,7 +97,7 @@ CHECKS['C08'] = {
     'design': 'DESIGN.md section 3 C08',
 }
 CHECKS['C09'] = {
-    'technique': 'machine-checked proof in Coq (no sleep on undone work for pub/sub) + wake-bit trace-acceptor correspondence, spin watchdog and wake-driven executor runs',
+    'technique': 'machine-checked proof in Coq (bounded work per poll and no spin for both routers by a potential argument, never parks unarmed, no sleep on undone work) + wake-bit trace-acceptor correspondence, spin watchdog and wake-driven executor runs',
     'text': ("PROVED (pub/sub): from every reachable state, a poll in which no subscriber answers Pending returns only after everything pulled was delivered to every live subscriber "
              "and flushed. The model predicts for every environment action (queue a socket, close the channel, fire a peer's kept waker) whether the router task is woken; every "
              "implementation trace must agree bit for bit, which is what exposes a registration channel left unarmed. Every generated history ends with a wake-driven phase (sinks "
@@ -106,7 +106,10 @@ CHECKS['C09'] = {
              "watchdog for mock-free spins. PROVED for both routers, every accepted trace: whenever a poll is about to return Pending, either a peer sink holds the task's waker (the router is "
              "blocked on it) or the registration channel does, having been polled to Pending in that very poll - neither router ever parks without a registered waker (the repaired "
              "defect parked on streams alone with the channel unarmed); and when a poll returns Pending in a step in which no sink answered Pending, the buffers are empty - pub/sub: the pulled "
-             "message has been handed over; req/rep: no reply and no rejection waits, a request waits only if no replier is bound. The bounded-step theorem is not yet proved."),
+             "message has been handed over; req/rep: no reply and no rejection waits, a request waits only if no replier is bound. PROVED for both routers, from ANY state: a poll makes at most "
+             "(data + queued + 1) * cap calls on its peers (data = calls that handed it a frame, queued = registrations waiting; cap linear in the numbers of sinks, streams and queued "
+             "registrations) - a potential argument over the control points of the loop - and between two peer calls the loop makes finitely many moves (a strictly decreasing measure over "
+             "the internal moves: no spin with no replier, no requestor or nothing connected). NOT proved: that a poll which parks has asked every stream until Pending (trace predicate)."),
     'note': ROUTER_NOTE,
     'design': 'DESIGN.md section 3 C09',
 }
@@ -122,13 +125,15 @@ CHECKS['C10'] = {
     'design': 'DESIGN.md section 3 C10',
 }
 CHECKS['C16'] = {
-    'technique': 'machine-checked proof in Coq (flush invariant of the pub/sub router LTS; closed-channel invariant of both router LTSs) + close-at-random-point wake-driven runs of both routers',
+    'technique': 'machine-checked proof in Coq (flush invariant of the pub/sub router LTS; closed-channel invariant and poll-after-close-completes within a bound for both router LTSs) + close-at-random-point wake-driven runs of both routers and SIGINT shutdown of the real server',
     'text': ("PROVED (pub/sub): whenever the router's future completes, the buffered message was handed over and every live subscriber holds, flushed, everything pulled since its "
              "registration. CHECKED on implementation traces of both routers: the registration channel is closed at a random point of every third history and in the final phase of "
              "40% of them; under the wake-driven executor with ready sinks the future must complete (this is what detects a channel whose waker was not re-armed), and the "
              "completion predicates must hold (for req/rep also: every reply handed to a requestor's sink is flushed when the future completes). PROVED for both routers: once the "
              "registration channel is closed, a poll returns Pending only in a step in which a sink answered Pending - with peers that accept data every poll after close returns Ready. "
-             "That a poll returns at all (bounded work) is checked on traces, not proved; Server::shutdown's close-then-join is exercised by the net scenarios."),
+             "PROVED for both routers: from every reachable state with the channel closed, a poll in which no sink answers Pending ends by completing the future, after at most "
+             "(data + queued + 1) * cap peer calls (the C09 potential argument). NOT proved: that peers answer (the model accepts traces, it does not generate them); Server::shutdown's "
+             "close-then-join is exercised by the shut scenarios (SIGINT to an in-process server with registrations in flight)."),
     'note': ROUTER_NOTE,
     'design': 'DESIGN.md section 3 C16',
 }
